@@ -29,6 +29,7 @@ DOC = {2: (0, 1, 2, -1, 3), 6: (0, 1, 2, -1, 3), 7: (0, 1, 2, -1, 4), 8: (2, 1, 
 CSNAME = {2: "RGB", 6: "EXT_RGB", 7: "EXT_RGBX", 8: "EXT_BGR", 9: "EXT_BGRX", 10: "EXT_XBGR", 11: "EXT_XRGB",
           12: "EXT_RGBA", 13: "EXT_BGRA", 14: "EXT_ABGR", 15: "EXT_ARGB"}
 PADS = [0, 1, 5, 32]
+NARROW_565_OK = False
 WIDTHS = [1, 2, 3, 4, 5, 7, 8, 9, 15, 16, 17, 23, 31, 32, 33, 40, 47, 48, 49]
 
 
@@ -115,8 +116,10 @@ def gen_kernel_group(rng, op, bits):
                     bits, w, h, pitch, bu, " | ".join(" ".join(map(str, p)) for p in planes), " ".join(map(str, buf))))
             g["meta"].append({"cs": 4, "pitch": pitch, "bu": bu, "init": buf})
     elif op[1] == "5":              # RGB565 (8-bit): alignment of the row pointers, rows per color_convert call, pitch, row order
-        if w < h + 1:
-            w = g["w"] = h + 1      # narrower images hit the num_cols underflow of jdcol565.c (reported finding): never generated
+        if NARROW_565_OK and rng.chance(1, 4):
+            w = g["w"] = rng.range(1, 3)    # regression input for F54: num_cols underflow when unaligned rows per call > width
+        elif w < h + 1:
+            w = g["w"] = h + 1      # (only generated when the source resets num_cols per row: the carried-num_cols model would spin)
         npl = 1 if op[0] == "g" else 3
         planes = [[sample(rng, mx, style) for _ in range(w * h)] for _ in range(npl)]
         g["planes"] = planes
@@ -430,6 +433,12 @@ def judge_api(g, out):
 def run(ctx):
     rng = ctx.rng
     ctx.regen(["Layouts"])
+    global NARROW_565_OK
+    try:
+        NARROW_565_OK = "rgb565_numcols_reset_per_row : bool := true" in open(os.path.join(core.COQ, "gen", "GenLayouts.v")).read()
+    except OSError:
+        NARROW_565_OK = False
+    ctx.cov["rgb565_narrow_regression_inputs"] = NARROW_565_OK
     ctx.prove()
     drv = ctx.model_driver()
     flavours = ["simd", "plain"] if not ctx.thorough() else ["simd", "plain", "asan"]
